@@ -28,8 +28,8 @@ type Head struct {
 
 func (h Head) MarshalJSON() ([]byte, error) {
 	n := h.N
-	if n > 1<<30 {
-		n = 1 << 30 // TLC integers are 32 bit; larger lengths cannot occur for in-memory payloads, tags are small
+	if n > 1<<28 {
+		n = 1 << 28 // TLC integers are 32 bit; larger lengths cannot occur for in-memory payloads, tags are small
 	}
 	return []byte(fmt.Sprintf("[%q,%d]", h.K, n)), nil
 }
